@@ -142,13 +142,32 @@ Proof.
       cbn [pr2_list has_err_list]. rewrite B1, B2, A1, A2. auto.
 Qed.
 
+Lemma any_erase_of_vis : forall g, any_gflag (vis g) = true -> any_flag (erase_x g) = true.
+Proof.
+  intros g H. unfold any_gflag, vis, any_flag, erase_x, set_x in *. cbn [gi gm gs gU fi fm fs fU fx fa] in *.
+  destruct (fi g), (fm g), (fs g), (fU g); try discriminate; reflexivity.
+Qed.
+
+Lemma any_of_erase : forall g, any_flag (erase_x g) = true -> any_flag g = true.
+Proof.
+  intros g H. unfold any_flag, erase_x, set_x in *. cbn [fi fm fs fU fx fa] in *.
+  destruct (fi g), (fm g), (fs g), (fU g), (fa g); try discriminate; try reflexivity;
+    rewrite ?orb_true_r; reflexivity.
+Qed.
+
+Lemma erase_none : forall g, any_flag (erase_x g) = false ->
+  fi g = false /\ fm g = false /\ fs g = false /\ fU g = false /\ fa g = false.
+Proof.
+  intros g H. unfold any_flag, erase_x, set_x in *. cbn [fi fm fs fU fx fa] in *.
+  destruct (fi g), (fm g), (fs g), (fU g), (fa g); try discriminate; auto.
+Qed.
+
 Lemma any_flag_erase_vis : forall st un,
   any_gflag (vis st) || any_gflag (vis un) = true ->
   any_flag (erase_x st) || any_flag (erase_x un) = true.
 Proof.
-  intros st un H. unfold any_gflag, vis, any_flag, erase_x, set_x in *. simpl in *.
-  destruct (fi st), (fm st), (fs st), (fU st), (fi un), (fm un), (fs un), (fU un); simpl in *;
-    try reflexivity; try discriminate; rewrite ?orb_true_r; reflexivity.
+  intros st un H. apply orb_true_iff in H. apply orb_true_iff.
+  destruct H as [H|H]; [left|right]; apply any_erase_of_vis; exact H.
 Qed.
 
 Theorem extx_sound : forall a, extx_at a.
@@ -193,12 +212,13 @@ Proof.
     destruct (IHa2 eq_refl) as (A1 & A2 & A3 & A4 & A5).
     rewrite El2.
     destruct (strip_fx (fx f1) a2) as [a2' xs2] eqn:Es2.
-    cbn [fst snd]. simpl tr.
+    cbn [fst snd] in A1, A2, A3, A4, A5 |- *. simpl tr.
     destruct (tr (erase_x f) a1') as [y' f1'] eqn:E1'.
     cbn [fst snd] in B1, B2, B3. subst f1'.
     destruct (tr f1 a2) as [z f2] eqn:E2.
     destruct (tr (erase_x f1) a2') as [z' f2'] eqn:E2'.
-    cbn [fst snd] in *. simpl. rewrite B1, B2, A1, A2. auto.
+    cbn [fst snd] in A1, A2, A3, A4, A5 |- *.
+    subst f2' xs2 x2. simpl. rewrite B1, B2, A1, A2. auto.
   - (* group with content *)
     destruct k as [| |name|st un].
     1-3: simpl in Hh; destruct (H f Hh) as (B1 & B2 & B3 & B4 & B5);
@@ -226,9 +246,8 @@ Proof.
       cbn [fst snd] in *. simpl. rewrite B1, B2. auto.
     + destruct (any_flag (erase_x st) || any_flag (erase_x un)) eqn:Ea.
       * assert (Ha : any_flag st || any_flag un = true).
-        { unfold any_flag, erase_x, set_x in *. simpl in Ea.
-          destruct (fi st), (fm st), (fs st), (fU st), (fa st), (fi un), (fm un), (fs un), (fU un), (fa un);
-            simpl in *; try discriminate; rewrite ?orb_true_r; reflexivity. }
+        { apply orb_true_iff in Ea. apply orb_true_iff.
+          destruct Ea as [Ea'|Ea']; [left|right]; apply any_of_erase; exact Ea'. }
         rewrite Ha. simpl tr. rewrite !vis_erase, Ev, apply_erase, Ea.
         destruct (tr (erase_x (apply_flags f st un)) b') as [y' f1'] eqn:E2.
         cbn [fst snd] in *. simpl. rewrite B1, B2. auto.
@@ -236,9 +255,12 @@ Proof.
         -- (* only x was mentioned: `(?x:..)` becomes `(?:..)`; the content runs under apply_flags f st un,
               whose x-erasure is the x-erasure of f *)
            assert (Hap : erase_x (apply_flags f st un) = erase_x f).
-           { unfold any_flag, erase_x, set_x, apply_flags in *. simpl in Ea. simpl.
-             destruct (fi st), (fm st), (fs st), (fU st), (fa st), (fi un), (fm un), (fs un), (fU un), (fa un);
-               simpl in *; try discriminate; rewrite ?orb_false_r, ?andb_true_r; reflexivity. }
+           { apply orb_false_iff in Ea. destruct Ea as [Es Eu].
+             destruct (erase_none st Es) as (S1 & S2 & S3 & S4 & S5).
+             destruct (erase_none un Eu) as (U1 & U2 & U3 & U4 & U5).
+             unfold erase_x, set_x, apply_flags. cbn [fi fm fs fU fx fa].
+             rewrite S1, S2, S3, S4, S5, U1, U2, U3, U4, U5. cbn [negb].
+             rewrite !orb_false_r, !andb_true_r. reflexivity. }
            simpl tr. rewrite <- Hap.
            destruct (tr (erase_x (apply_flags f st un)) b') as [y' f1'] eqn:E2.
            cbn [fst snd] in *. simpl. rewrite B1, B2. rewrite Hap. auto.
@@ -253,6 +275,7 @@ Proof.
     simpl in Hh. destruct (IHa f Hh) as (B1 & B2 & B3 & B4 & B5).
     simpl strip_fx. simpl live_hash.
     destruct (strip_fx (fx f) a) as [a' xs] eqn:Es.
+    cbn [fst snd] in B1, B2, B3, B4, B5 |- *.
     simpl tr.
     destruct (tr f a) as [y f1]. destruct (tr (erase_x f) a') as [y' f1'].
     cbn [fst snd] in *. simpl. rewrite B1, B2. auto.
@@ -292,4 +315,37 @@ Proof.
     destruct (any_flag st || any_flag un); reflexivity.
   - destruct k; reflexivity.
   - simpl. specialize (IHa x). destruct (strip_fx x a) as [a' x1]. cbn [fst] in *. simpl. exact IHa.
+Qed.
+
+Lemma mentions_sets : forall a, mentions_x a = false -> sets_x a = false.
+Proof.
+  induction a as [a| | | | | | | |txt|neg items|l H|a1 a2 IHa1 IHa2|k b H|k|q alt a IHa] using re_ind2; intro Hm;
+    try reflexivity.
+  - change (mentions_x (RConcat l)) with (mentions_x_list l) in Hm. rewrite sets_x_concat.
+    induction H as [|e t He _ IH]; [reflexivity|].
+    simpl in Hm. apply orb_false_iff in Hm. destruct Hm as [M1 M2].
+    simpl. rewrite (He M1), (IH M2). reflexivity.
+  - simpl in *. apply orb_false_iff in Hm. destruct Hm as [M1 M2]. rewrite (IHa1 M1), (IHa2 M2). reflexivity.
+  - simpl in *. apply orb_false_iff in Hm. destruct Hm as [M1 M2]. rewrite (H M2).
+    destruct k as [| |name|st un]; try reflexivity.
+    apply orb_false_iff in M1. destruct M1 as [M1 _]. rewrite M1. reflexivity.
+  - simpl in *. rewrite orb_false_r in *. destruct k as [| |name|st un]; try reflexivity.
+    apply orb_false_iff in Hm. destruct Hm as [M1 _]. exact M1.
+  - simpl in *. exact (IHa Hm).
+Qed.
+
+(* the meaning of a pattern with inline x groups and no live `#`: its text is the text of the stripped,
+   x-free tree, and that tree's emitted term matches exactly what the stripped tree denotes *)
+Theorem extended_flags_sound : forall orbit uni posix (s : list Z) f a,
+  comment_free f a = true -> transpile_text f a <> None ->
+  transpile_text f a = transpile_text (erase_x f) (strip_x f a)
+  /\ Model.C21_RegexSem.matches_re2 orbit uni posix s (transpile (erase_x f) (strip_x f a))
+     = Model.C21_RegexSem.matches_elk orbit uni posix s (erase_x f) (strip_x f a).
+Proof.
+  intros orbit uni posix s f a Hc Hn. pose proof (extended_flags_text f a Hc) as Ht.
+  split; [exact Ht|].
+  apply transpile_sound.
+  - reflexivity.
+  - apply mentions_sets. apply strip_fx_nox.
+  - rewrite <- Ht. exact Hn.
 Qed.
